@@ -454,30 +454,49 @@ class StubNS:
 
 
 def run_ext(c, wd, FlowSampler):
+    """save_results(<dir>/<stem>[.<ext>], extension=<arg>) with the working directory inside a scratch
+    directory; <dir> may be empty, relative ("./x"), nested, hidden or contain dots"""
     import h5py
-    sub = os.path.join(wd, "ext")
     import shutil
+    sub = os.path.join(wd, "ext")
     shutil.rmtree(sub, ignore_errors=True)
     os.makedirs(sub)
+    d = c.get("dir", "")
+    if d:
+        os.makedirs(os.path.join(sub, os.path.normpath(d)), exist_ok=True)
     post = np.array([(1.0, 2.0), (3.0, 4.0)], dtype=[("x", "f8"), ("logL", "f8")])
     stub = types.SimpleNamespace(ns=StubNS({"log_evidence": np.float64(-1.5), "seed": None}), posterior_samples=post)
-    fname = c["stem"] + ("." + c["ext"] if c["ext"] else "")
+    fname = (d + "/" if d else "") + c["stem"] + ("." + c["ext"] if c["ext"] else "")
+    old = os.getcwd()
+    os.chdir(sub)
     try:
-        FlowSampler.save_results(stub, os.path.join(sub, fname), c["arg"])
-    except Exception as e:  # noqa: BLE001
-        return {"err": type(e).__name__, "files": sorted(os.listdir(sub))}
-    files = sorted(os.listdir(sub))
-    res = {"files": files}
-    if len(files) == 1:
+        try:
+            FlowSampler.save_results(stub, fname, c["arg"])
+            res = {}
+        except Exception as e:  # noqa: BLE001
+            res = {"err": type(e).__name__}
+    finally:
+        os.chdir(old)
+    files = []
+    for root, _, fs in os.walk(sub):
+        for f in fs:
+            files.append(os.path.normpath(os.path.relpath(os.path.join(root, f), sub)))
+    res["files"] = sorted(files)
+    res["passed"] = fname
+    if "err" not in res and len(files) == 1:
         p = os.path.join(sub, files[0])
         try:
             with open(p) as fh:
-                json.load(fh)
+                r = json.load(fh)
             res["writer"] = "json"
+            res["content_ok"] = f2b(r["log_evidence"]) == f2b(-1.5) and r["seed"] is None \
+                and list(r["posterior_samples"].keys()) == ["x", "logL"]
         except Exception:  # noqa: BLE001
             try:
-                with h5py.File(p, "r"):
+                with h5py.File(p, "r") as f:
                     res["writer"] = "hdf5"
+                    res["content_ok"] = f2b(f["log_evidence"][()]) == f2b(-1.5) \
+                        and f["posterior_samples"][()].dtype.names == ("x", "logL")
             except Exception:  # noqa: BLE001
                 res["writer"] = "unreadable"
     return res
@@ -516,7 +535,13 @@ def run_sampler(which, wd):
                 y[n] = 10 * x[n] - 5
             return y
 
-    out = os.path.join(wd, "run_" + which)
+    # output directories that contain dots: a version-like name, and a relative "./..." path
+    os.makedirs(wd, exist_ok=True)
+    if which == "std":
+        out = os.path.join(wd, "run_std_v1.2")
+    else:
+        os.chdir(wd)
+        out = "./run_ins"
     pool = APool()
     if which == "std":
         kw = dict(nlive=50, max_iteration=250, training_frequency=100, maximum_uninformed=100,
@@ -525,8 +550,8 @@ def run_sampler(which, wd):
         kw = dict(nlive=100, importance_nested_sampler=True, max_iteration=3, min_samples=25)
     fs = FlowSampler(G(), output=out, plot=False, seed=1, resume=False, signal_handling=False,
                      checkpointing=False, **kw)
-    fs.run(plot=False, save=False)
-    res = {}
+    fs.run(plot=False, save=True)       # run() itself writes result.<result_extension> (hdf5 by default)
+    res = {"output": out}
     # the configuration written at start-up
     try:
         with open(os.path.join(out, "config.json")) as fh:
@@ -563,12 +588,22 @@ def run_sampler(which, wd):
     d = memory()
     res["tree"] = describe(d)
     res["saves"] = {}
-    for label, fname, arg in (("json", "result.json", None), ("hdf5", "result.hdf5", None), ("h5", "result", "h5")):
+    for label, fname, arg in (("run()", "result.hdf5", "written-by-run"), ("json", "result", "json"),
+                              ("json-in-name", "result.json", None), ("hdf5", "result.hdf5", None),
+                              ("h5", "result", "h5")):
         target = os.path.join(out, fname)
         try:
-            fs.save_results(target, arg)
-            written = target if arg is None else target + "." + arg
-            if label == "json":
+            if arg != "written-by-run":
+                for stale in os.listdir(out):
+                    if stale.startswith("result") and os.path.isfile(os.path.join(out, stale)):
+                        os.remove(os.path.join(out, stale))
+                fs.save_results(target, arg)
+            written = target if arg in (None, "written-by-run") else target + "." + arg
+            if not os.path.isfile(written):
+                raise FileNotFoundError(
+                    f"expected result file {written} does not exist; output directory holds "
+                    f"{sorted(f for f in os.listdir(out) if os.path.isfile(os.path.join(out, f)))}")
+            if label.startswith("json"):
                 with open(written) as fh:
                     r = json.load(fh)
                 dj = dict(d)
